@@ -194,7 +194,9 @@ func refPositions(doc map[string]any) []refPos {
 			out = append(out, refPos{kind: kind, path: []any{k, 0}, cur: "", add: true})
 		}
 	}
-	sort.Slice(out, func(i, j int) bool { return fmt.Sprint(out[i].kind, out[i].path) < fmt.Sprint(out[j].kind, out[j].path) })
+	sort.Slice(out, func(i, j int) bool {
+		return fmt.Sprint(out[i].kind, out[i].path) < fmt.Sprint(out[j].kind, out[j].path)
+	})
 	return out
 }
 
